@@ -62,7 +62,7 @@ type blob struct {
 	seed int
 }
 
-func lit(b []byte) blob       { return blob{b: b} }
+func lit(b []byte) blob        { return blob{b: b} }
 func genBlob(n, seed int) blob { return blob{b: genBytes(n, seed), gen: true, seed: seed} }
 
 func (x blob) String() string {
@@ -128,7 +128,11 @@ type cliEvent struct {
 type cliScenario struct {
 	settings [][2]uint32
 	arm      bool
-	evs      []*cliEvent
+	// conforming: the scripted server of this scenario sends only what a conforming server may (no frame or
+	// message offences), so it can hold the client to C14: its view of the client's connection receive window
+	// never stays below half of what the client announced
+	conforming bool
+	evs        []*cliEvent
 }
 
 func (r *cliReq) String() string {
@@ -188,7 +192,11 @@ func (sc *cliScenario) String() string {
 	if sc.arm {
 		arm = 1
 	}
-	parts := []string{fmt.Sprintf("cli S=%s arm=%d", fmtSettings(sc.settings), arm)}
+	head := fmt.Sprintf("cli S=%s arm=%d", fmtSettings(sc.settings), arm)
+	if sc.conforming {
+		head += " rc=1"
+	}
+	parts := []string{head}
 	for _, e := range sc.evs {
 		parts = append(parts, e.String())
 	}
@@ -219,6 +227,8 @@ func parseCliScenario(line string) *cliScenario {
 			sc.settings = parseSettingsList(p[1])
 		case "arm":
 			sc.arm = p[1] == "1"
+		case "rc":
+			sc.conforming = p[1] == "1"
 		}
 	}
 	for _, p := range parts[1:] {
@@ -405,8 +415,11 @@ type cliRun struct {
 	groups     []string
 	reqs       map[uint32]int // stream id -> tag, from the HEADERS observed
 	bad        []string
-	goAwayLast int64           // the smallest last-stream-id of the GOAWAY frames sent (-1: none)
-	refused    map[uint32]bool // streams the server reset with REFUSED_STREAM
+	// the scripted server's view of the client's connection receive window (C14), and what the client announced
+	recvConn, recvMax int64
+	recvFlagged       bool
+	goAwayLast        int64           // the smallest last-stream-id of the GOAWAY frames sent (-1: none)
+	refused           map[uint32]bool // streams the server reset with REFUSED_STREAM
 
 	// the scripted server's flow-control ledger (C07): what it has granted and what it has been sent
 	connGranted, connSent int64
@@ -462,6 +475,12 @@ func startClientRun(sc *cliScenario) *cliRun {
 		time.Sleep(20 * time.Microsecond)
 	}
 	r.seen = cliHandshakeFrames
+	r.peer.mu.Lock()
+	if len(r.peer.frames) >= 2 && r.peer.frames[1].kind == 8 && len(r.peer.frames[1].payload) == 4 {
+		r.recvMax = 65535 + int64(binary.BigEndian.Uint32(r.peer.frames[1].payload)&0x7fffffff)
+	}
+	r.peer.mu.Unlock()
+	r.recvConn = r.recvMax
 	for _, kv := range sc.settings {
 		if kv[0] == 1 && kv[1] < 4096 {
 			// the encoder will announce the smaller table; x/net's decoder accepts any size up to its own 4096
@@ -705,9 +724,16 @@ func (r *cliRun) report(ev *cliEvent, extra []string) string {
 			queued = append(queued, fmt.Sprintf("G%d:%d", binary.BigEndian.Uint32(f.payload)&0x7fffffff, binary.BigEndian.Uint32(f.payload[4:])))
 		case 8:
 			queued = append(queued, fmt.Sprintf("W%d:%d", f.sid, binary.BigEndian.Uint32(f.payload)&0x7fffffff))
+			if f.sid == 0 {
+				r.recvConn += int64(binary.BigEndian.Uint32(f.payload) & 0x7fffffff)
+			}
 		default:
 			queued = append(queued, fmt.Sprintf("?%d", f.kind))
 		}
+	}
+	if r.sc.conforming && !r.hung && !r.rlMustExit && r.conn != nil && !r.conn.Closed() && r.recvConn >= 0 && r.recvConn < r.recvMax/2 && !r.recvFlagged {
+		r.recvFlagged = true
+		r.bad = append(r.bad, fmt.Sprintf("conn-recv-window-%d-below-half-of-%d", r.recvConn, r.recvMax))
 	}
 	items := append(append(direct, queued...), extra...)
 	if r.hung {
@@ -860,6 +886,13 @@ func (r *cliRun) step(ev *cliEvent) string {
 		}
 		if ev.fr.kind == 'R' && ev.fr.code == 7 {
 			r.refused[ev.fr.sid&0x7fffffff] = true
+		}
+		if ev.fr.kind == 'D' {
+			n := int64(len(ev.fr.payload))
+			if ev.fr.pad >= 0 {
+				n += 1 + int64(ev.fr.pad)
+			}
+			r.recvConn -= n
 		}
 		if ev.fr.kind == 'W' {
 			if sid := ev.fr.sid & 0x7fffffff; sid == 0 {
